@@ -24,6 +24,11 @@ package main
 // slices and maps — marshaled from a pointer, a struct value, an array, a slice and a map as root.
 // Oracle: a generic isomorphism walk over reflect.Values. Correspondence: Model/Graph.v's extended
 // heap language (shape_case_ok recomputes every verdict and the fragment assertion).
+// Interior pointers (c20Interior): pointers to the first field / first array element / element 0 of
+// an object that is itself referenced — same address, different type.  For every zoo value the
+// iterator's events are matched against the value (c20CrossTypeRefs): a reference that names the
+// marker of another object gives the key C20/interior-pointer-emitted-as-reference-to-enclosing-object
+// (also used for the unmarshal error / shape mismatch that follows from it).
 // Every class that fails on the unchanged library has a key computed from the shape of the input
 // (c20X.features) and the symptom: C20/back-edge-in-{by-value-struct,array,slice-of-structs,
 // map-of-structs}, C20/pointer-to-{slice,map}.
@@ -1355,7 +1360,7 @@ func c20Record(c *Ctx, cf *caseFile, stream string, g *c20Graph, k c20Cfg) c20Ou
 }
 
 func runC20(c *Ctx) {
-	c.Rep.Rule = "graphs over type N{V int; A,B,C *N; S []*N; M map[int]*N}: random tree of 1..12 nodes plus 0..4 extra edges (shared / back edges), each run through CBE and CTE; streams: main (shared objects inside shared objects and cycles through shared objects included; rules on), rules-off, omit-never, empty containers, slice prefixes, boundary shapes; event streams with forward references / missing / repeated markers played into validator+builder; by-value-root: the same graphs with the root struct handed to Marshal by value; long-containers: slices / maps of 1..33 (thorough ..129) entries around the powers of two holding back-edges at the first / middle / last / growth-point / random positions; zoo: values of type Z{V int; P,Q *Z; I,J *int; F,G *float64; T,U *string; In struct{W int; Q *Z; I *int}; Ar [2]*Z; S []*Z; Sv []In; Mp map[string]*Z; Mi map[string]*int; Mf map[int]*float64; Mt map[int]*string; Mv map[string]In; Ps *[]*Z; Pm *map[string]*Z} from a pointer / struct value / array / slice / map root: directed (shared leaf pointers first written as map values with later occurrences in later fields, children, a second map, the same map; sharing through by-value containers; the failing classes) and random (1..7 Z objects, 25% back-edges, 40% sharing per reference slot); non-trivial = more than one object; distinct = distinct (configuration, graph) or stream"
+	c.Rep.Rule = "graphs over type N{V int; A,B,C *N; S []*N; M map[int]*N}: random tree of 1..12 nodes plus 0..4 extra edges (shared / back edges), each run through CBE and CTE; streams: main (shared objects inside shared objects and cycles through shared objects included; rules on), rules-off, omit-never, empty containers, slice prefixes, boundary shapes; event streams with forward references / missing / repeated markers played into validator+builder; by-value-root: the same graphs with the root struct handed to Marshal by value; long-containers: slices / maps of 1..33 (thorough ..129) entries around the powers of two holding back-edges at the first / middle / last / growth-point / random positions; zoo: values of type Z{V int; P,Q *Z; I,J *int; F,G *float64; T,U *string; In struct{W int; Q *Z; I *int}; Ar [2]*Z; S []*Z; Sv []In; Mp map[string]*Z; Mi map[string]*int; Mf map[int]*float64; Mt map[int]*string; Mv map[string]In; Ps *[]*Z; Pm *map[string]*Z} from a pointer / struct value / array / slice / map root: directed (shared leaf pointers first written as map values with later occurrences in later fields, children, a second map, the same map; sharing through by-value containers; the failing classes) and random (1..7 Z objects, 25% back-edges, 40% sharing per reference slot); interior-pointers: a referenced (held once / shared / cyclic) struct or slice of structs next to pointers to its first field / first element of its first-field array / element 0 (same address, other type; control: a field elsewhere), each held 1..3 times, written before / after / on both sides of the enclosing object; for every zoo value the iterator's events are walked along the value and every reference must name the marker put on the object (type and address) its slot holds; non-trivial = more than one object; distinct = distinct (configuration, graph) or stream"
 	cf := c.Cases("graph", "CE.Model.Graph", "graph_case", "graph_case_ok")
 	cf.perFile = 120
 
@@ -1451,6 +1456,7 @@ func runC20(c *Ctx) {
 	c20PointerToPointer(c)
 	c20Streams(c, cf)
 	c20Zoo(c)
+	c20Interior(c)
 }
 
 // two slices over one backing array with different lengths: not expressible in the model's heaps
@@ -2476,6 +2482,9 @@ func (sp c20ZSpec) build() (obj reflect.Value, err error) {
 		}
 		return 0
 	}
+	if sp.Shape == "interior" {
+		return c20InteriorBuild(p), nil
+	}
 	z, other := c20Directed(sp.Shape, p)
 	if z == nil {
 		return obj, fmt.Errorf("unknown shape %q", sp.Shape)
@@ -2684,6 +2693,7 @@ func c20ZooUnmarshal(format string, doc []byte, t reflect.Type, cfg *configurati
 }
 
 type c20ZooOutcome struct {
+	followed bool // the iterator's events could be matched against the value (c20CrossTypeRefs)
 	failures []Replay
 	term     string
 	human    string
@@ -2713,10 +2723,19 @@ func c20RunZoo(sp c20ZSpec, rules bool) c20ZooOutcome {
 	out.features = x.features()
 	cfg := c20Cfg{Rules: rules}.config()
 	suffix := c20RootKeySuffix(sp.Root)
-	if _, st := c20IterEvents(obj.Interface(), cfg); st != "ok" {
+	es, st := c20IterEvents(obj.Interface(), cfg)
+	if st != "ok" {
 		out.failures = append(out.failures, Replay{Kind: "zoo", Key: "C20/zoo-iterate-" + st + suffix, Input: in("-"),
 			Expect: "the iterator comes back", Got: st})
 		return out
+	}
+	// the events against the value: every reference must name the marker that was put on the very
+	// object (type and address) the slot holds
+	crossed, followed := c20CrossTypeRefs(obj, es)
+	out.followed = followed
+	if len(crossed) > 0 {
+		out.failures = append(out.failures, Replay{Kind: "zoo", Key: c20CrossKey, Input: in("-"),
+			Expect: "a reference names the marker of the object the pointer points at", Got: strings.Join(crossed, "; ")})
 	}
 	results := []string{}
 	for _, format := range []string{"cbe", "cte"} {
@@ -2738,6 +2757,9 @@ func c20RunZoo(sp c20ZSpec, rules bool) c20ZooOutcome {
 					}
 				}
 			}
+			if len(crossed) > 0 {
+				key = c20CrossKey
+			}
 			out.failures = append(out.failures, Replay{Kind: "zoo", Key: key, Input: in(format), Expect: "the document produced by Marshal is accepted", Got: msg})
 			results = append(results, "SErr")
 			continue
@@ -2751,6 +2773,9 @@ func c20RunZoo(sp c20ZSpec, rules bool) c20ZooOutcome {
 			// back-edge in that kind of container
 			if st2.lost && st2.chain != "" && out.features["back-edge-in-"+st2.chain] {
 				key = "C20/back-edge-in-" + st2.chain
+			}
+			if len(crossed) > 0 {
+				key = c20CrossKey
 			}
 			out.failures = append(out.failures, Replay{Kind: "zoo", Key: key, Input: in(format), Expect: "a graph of the same shape", Got: st2.why})
 		}
@@ -2783,6 +2808,7 @@ func c20RecordZoo(c *Ctx, cf *caseFile, stream string, sp c20ZSpec, rules bool) 
 	c.Dist(fmt.Sprintf("zoo-shared-leaf-cells/%v", sharedLeaves > 0))
 	c.Dist(fmt.Sprintf("zoo-shared-cells/%v", shared > 0))
 	c.Dist(fmt.Sprintf("zoo-cyclic/%v", cyclic))
+	c.Dist(fmt.Sprintf("zoo-events-followed/%v", o.followed))
 	none := true
 	for _, f := range c20FeatureOrder {
 		if o.features[f] {
@@ -2860,6 +2886,342 @@ func c20Zoo(c *Ctx) {
 		}
 		c20RecordZoo(c, cf, "zoo-random-all", sp, i%3 != 0)
 	}
+}
+
+// ---------------------------------------------------------------------------
+// Interior pointers at the address of another referenced object.
+//
+// Go lets a pointer point INTO an object: at a field of a struct, at an element of an array field,
+// at an element of a slice.  The first field of a struct (and the first element of a first-field
+// array, and element 0 of a slice) lives at the very address of the enclosing object, so the two
+// pointers differ in type only — and duplicates.TypedPointer (type + address) is what keeps them
+// apart.  The shapes below put a referenced (shared / cyclic / held once) enclosing object next to
+// pointers to its first field / first array element / element 0, held once or several times, written
+// before or after the enclosing object; controls point at a field that is NOT at the object's
+// address.  The oracle treats the target of an interior pointer as an object of its own whose
+// identity is (type, address) — the identity the library uses; that the copy which comes back no
+// longer aliases the field of the enclosing object is not counted.
+
+type c20IHead struct {
+	Title string
+	Rev   int
+}
+
+// first field is a struct: &d.Head is at the address of d
+type c20IDoc struct {
+	Head c20IHead
+	Arr  [2]c20IHead
+	Body int
+	Prev *c20IDoc
+}
+
+// first field is an array: &d.Arr[0] (and &d.Arr) are at the address of d
+type c20IDocA struct {
+	Arr  [2]c20IHead
+	Body int
+	Prev *c20IDocA
+}
+
+type c20IIndex struct {
+	Pre     []*c20IHead // interior pointers written before the objects they point into
+	Docs    []*c20IDoc
+	Latest  *c20IDoc
+	Adocs   []*c20IDocA
+	Alatest *c20IDocA
+	Sv      []c20IHead  // a slice of structs ...
+	Sw      []c20IHead  // ... possibly the same slice again
+	Post    []*c20IHead // interior pointers written after
+	Last    *c20IHead
+}
+
+const c20CrossKey = "C20/interior-pointer-emitted-as-reference-to-enclosing-object"
+
+// p0: what the interior pointers point at: 0 = first field of a struct (Doc.Head), 1 = first element
+//
+//	of a first-field array (DocA.Arr[0]), 2 = element 0 of a slice of structs, 3 = control: a field
+//	that is not at the object's address (Doc.Arr[1])
+//
+// p1: the enclosing object is 0 = held once, 1 = shared, 2 = on a cycle (and shared)
+// p2: how often each interior pointer is held (1..3)
+// p3: 0 = interior pointers after the objects, 1 = before, 2 = both
+// p4: number of enclosing objects (1..3); p5: 1 = only the first object has interior pointers
+func c20InteriorBuild(p func(int) int) reflect.Value {
+	kind, sharing, held, order, n, firstOnly := p(0), p(1), p(2), p(3), p(4), p(5)
+	if n < 1 {
+		n = 1
+	}
+	idx := &c20IIndex{}
+	interior := []*c20IHead{}
+	head := func(i int) c20IHead { return c20IHead{Title: fmt.Sprintf("t%d", i), Rev: i + 1} }
+	switch kind {
+	case 0, 3:
+		for i := 0; i < n; i++ {
+			d := &c20IDoc{Head: head(i), Arr: [2]c20IHead{head(10 + i), head(20 + i)}, Body: 100 + i}
+			idx.Docs = append(idx.Docs, d)
+			if kind == 0 {
+				interior = append(interior, &d.Head)
+			} else {
+				interior = append(interior, &d.Arr[1])
+			}
+		}
+		if sharing >= 1 {
+			idx.Latest = idx.Docs[n-1]
+			if n > 1 {
+				idx.Docs = append(idx.Docs, idx.Docs[0])
+			}
+		}
+		if sharing == 2 {
+			for i := 0; i < n; i++ {
+				idx.Docs[i].Prev = idx.Docs[(i+1)%n]
+			}
+		}
+	case 1:
+		for i := 0; i < n; i++ {
+			d := &c20IDocA{Arr: [2]c20IHead{head(i), head(20 + i)}, Body: 100 + i}
+			idx.Adocs = append(idx.Adocs, d)
+			interior = append(interior, &d.Arr[0])
+		}
+		if sharing >= 1 {
+			idx.Alatest = idx.Adocs[n-1]
+			if n > 1 {
+				idx.Adocs = append(idx.Adocs, idx.Adocs[0])
+			}
+		}
+		if sharing == 2 {
+			for i := 0; i < n; i++ {
+				idx.Adocs[i].Prev = idx.Adocs[(i+1)%n]
+			}
+		}
+	default:
+		idx.Sv = make([]c20IHead, n+1)
+		for i := range idx.Sv {
+			idx.Sv[i] = head(i)
+		}
+		interior = append(interior, &idx.Sv[0])
+		if n > 1 {
+			interior = append(interior, &idx.Sv[n])
+		}
+		if sharing >= 1 {
+			idx.Sw = idx.Sv
+		}
+	}
+	if firstOnly == 1 {
+		interior = interior[:1]
+	}
+	for h := 0; h < held; h++ {
+		for _, ip := range interior {
+			if order == 1 || order == 2 {
+				idx.Pre = append(idx.Pre, ip)
+			}
+			if order == 0 || order == 2 {
+				idx.Post = append(idx.Post, ip)
+			}
+		}
+	}
+	if order != 1 {
+		idx.Last = interior[0]
+	}
+	return reflect.ValueOf(idx)
+}
+
+func c20Interior(c *Ctx) {
+	cf := c.Cases("shape", "CE.Model.Graph", "shape_case", "shape_case_ok")
+	i := 0
+	for kind := 0; kind < 4; kind++ {
+		for sharing := 0; sharing < 3; sharing++ {
+			for held := 1; held <= 3; held++ {
+				for order := 0; order < 3; order++ {
+					ns := []int{1 + (kind+sharing+held+order)%3}
+					if c.Thorough() {
+						ns = []int{1, 2, 3}
+					}
+					for _, n := range ns {
+						sp := c20ZSpec{Shape: "interior", Root: "ptr", P: []int{kind, sharing, held, order, n, (i / 3) % 2}}
+						o := c20RecordZoo(c, cf, "interior-pointers", sp, i%3 != 0)
+						c.Dist(fmt.Sprintf("interior/%s", []string{"first-field", "first-array-element", "slice-element-0", "control-other-field"}[kind]))
+						c.Dist(fmt.Sprintf("interior-enclosing/%s", []string{"held-once", "shared", "cyclic"}[sharing]))
+						c.Dist(fmt.Sprintf("interior-violations/%s/%v", []string{"first-field", "first-array-element", "slice-element-0", "control-other-field"}[kind], len(o.failures) > 0))
+						i++
+					}
+				}
+			}
+		}
+	}
+}
+
+// Walks the iterator's events along the value they were produced from.  Returns a description of
+// every reference that names a marker which was put on a DIFFERENT object (another type, or another
+// address) than the one the slot holds.  nil when the events cannot be followed (then nothing is
+// claimed).
+func c20CrossTypeRefs(root reflect.Value, es []Ev) (crossed []string, followed bool) {
+	defer func() {
+		if r := recover(); r != nil {
+			crossed, followed = nil, false
+		}
+	}()
+	pos := 0
+	next := func() Ev {
+		if pos >= len(es) {
+			panic("eof")
+		}
+		e := es[pos]
+		pos++
+		return e
+	}
+	for pos < len(es) && (es[pos].K == "bd" || es[pos].K == "v") {
+		pos++
+	}
+	// marker id -> the object(s) it can be on (a marker in front of a pointer to a slice / map / pointer
+	// may belong to the pointer or to what it points at: both are accepted)
+	marks := map[string][]c20RIdent{}
+	norm := func(s string) string { return strings.ToLower(strings.ReplaceAll(s, "_", "")) }
+	var walk func(v reflect.Value, path string)
+	// the objects a marker or reference in front of v can be about: v itself, and — when v is a pointer
+	// to a pointer / slice / map — what it points at (the pointer iterator hands over to theirs)
+	cands := func(v reflect.Value) []c20RIdent {
+		ids := []c20RIdent{{v.Type(), v.Pointer()}}
+		for v.Kind() == reflect.Ptr && !v.IsNil() {
+			v = v.Elem()
+			switch v.Kind() {
+			case reflect.Ptr:
+				if !v.IsNil() {
+					ids = append(ids, c20RIdent{v.Type(), v.Pointer()})
+				}
+			case reflect.Slice, reflect.Map:
+				if v.Len() > 0 {
+					ids = append(ids, c20RIdent{v.Type(), v.Pointer()})
+				}
+			}
+		}
+		return ids
+	}
+	// a slot that can carry a marker / be a reference: returns true when the value was not written out
+	refOrMark := func(v reflect.Value, path string) bool {
+		id := c20RIdent{v.Type(), v.Pointer()}
+		switch es[pos].K {
+		case "ref":
+			e := next()
+			if ms, ok := marks[string(e.Data)]; ok {
+				match := false
+				for _, m := range ms {
+					for _, cand := range cands(v) {
+						if m == cand {
+							match = true
+						}
+					}
+				}
+				if !match {
+					crossed = append(crossed, fmt.Sprintf("%s (a %v) is written as a reference to marker %s, which is on a %v (same address: %v)",
+						path, id.t, e.Data, ms[0].t, ms[0].p == id.p))
+				}
+			}
+			return true
+		case "mk":
+			e := next()
+			marks[string(e.Data)] = cands(v)
+		}
+		return false
+	}
+	walk = func(v reflect.Value, path string) {
+		if pos >= len(es) {
+			panic("eof")
+		}
+		switch v.Kind() {
+		case reflect.Ptr:
+			if v.IsNil() {
+				if next().K != "null" {
+					panic("x")
+				}
+				return
+			}
+			if refOrMark(v, path) {
+				return
+			}
+			walk(v.Elem(), path+"*")
+		case reflect.Slice, reflect.Array:
+			if v.Kind() == reflect.Slice {
+				if v.IsNil() {
+					if next().K != "null" {
+						panic("x")
+					}
+					return
+				}
+				if v.Len() > 0 && refOrMark(v, path) {
+					return
+				}
+			}
+			if next().K != "l" {
+				panic("x")
+			}
+			for i := 0; i < v.Len(); i++ {
+				walk(v.Index(i), fmt.Sprintf("%s[%d]", path, i))
+			}
+			if next().K != "e" {
+				panic("x")
+			}
+		case reflect.Map:
+			if v.IsNil() {
+				if next().K != "null" {
+					panic("x")
+				}
+				return
+			}
+			if v.Len() > 0 && refOrMark(v, path) {
+				return
+			}
+			if next().K != "m" {
+				panic("x")
+			}
+			for es[pos].K != "e" {
+				ke := next()
+				var key reflect.Value
+				switch v.Type().Key().Kind() {
+				case reflect.String:
+					key = reflect.ValueOf(string(ke.Data))
+				default:
+					n := ke.I
+					switch ke.K {
+					case "pi":
+						n = int64(ke.N)
+					case "ni":
+						n = -int64(ke.N)
+					}
+					key = reflect.ValueOf(n).Convert(v.Type().Key())
+				}
+				ev := v.MapIndex(key)
+				if !ev.IsValid() {
+					panic("x")
+				}
+				walk(ev, fmt.Sprintf("%s[%v]", path, key))
+			}
+			pos++
+		case reflect.Struct:
+			if next().K != "m" {
+				panic("x")
+			}
+			for es[pos].K != "e" {
+				name := norm(string(next().Data))
+				fi := -1
+				for i := 0; i < v.NumField(); i++ {
+					if norm(v.Type().Field(i).Name) == name {
+						fi = i
+					}
+				}
+				if fi < 0 {
+					panic("x")
+				}
+				walk(v.Field(fi), path+"."+v.Type().Field(fi).Name)
+			}
+			pos++
+		default:
+			next() // a scalar or a string: one event
+		}
+	}
+	walk(root, "root")
+	if pos >= len(es) || es[pos].K != "ed" {
+		return nil, false
+	}
+	return crossed, true
 }
 
 func c20ReplayZoo(r *Replay) (bool, string) {
